@@ -193,7 +193,11 @@ func (v *Voucher) OwnerPublicKey() (crypto.PublicKey, error) {
 	if len(v.Entries) == 0 {
 		return v.Header.Val.ManufacturerKey.Public()
 	}
-	return v.Entries[len(v.Entries)-1].Payload.Val.PublicKey.Public()
+	last := len(v.Entries) - 1
+	if v.Entries[last].Payload == nil {
+		return nil, fmt.Errorf("voucher entry payload %d is missing", last)
+	}
+	return v.Entries[last].Payload.Val.PublicKey.Public()
 }
 
 // VerifyHeader checks that the OVHeader was not modified by comparing the HMAC
